@@ -36,6 +36,15 @@ pub fn job_c03(out_dir: &str, tier: &str, seed: u64) {
     let mut inputs: Vec<Vec<u8>> = gen::corpus(&mut rng, if quick { 26 } else { 70 }, if quick { 600 } else { 20000 });
     for _ in 0..(if quick { 2500 } else { 60000 }) { let k = 2 + rng.below(6); inputs.push(tag_soup(&mut rng, k)); }
     for _ in 0..(if quick { 800 } else { 20000 }) { inputs.push(gen::foreign_doc(&mut rng, 12)); }
+    // unhashable / special names around every integration point (the tag scanner has to hand these tags to the lexer)
+    for ip in ["<math><mi>", "<math><mo>", "<math><mtext>", "<math><annotation-xml encoding=text/html>", "<svg><foreignObject>", "<svg><title>", "<svg><desc>"] {
+        for nm in ["x-y", "verylongtagname12", "annotation-xml", "b"] {
+            for next in ["<b>u</b>", "<i x=1>v</i>", "<font color=red>w</font>", "<svg><g/></svg>"] {
+                inputs.push(format!("{ip}<{nm}>t</{nm}>{next}</p>tail").into_bytes());
+                inputs.push(format!("{ip}</{nm}>{next}<{nm} a=b>").into_bytes());
+            }
+        }
+    }
     // template x table-structure contexts (the tree builder ignores text-mode tags there)
     for t in ["col", "colgroup", "caption", "tbody", "tr", "td"] {
         for x in ["title", "textarea", "style", "script", "xmp", "plaintext"] {
@@ -62,18 +71,19 @@ pub fn job_c03(out_dir: &str, tier: &str, seed: u64) {
         // every single cut of a short input (a token completed before the boundary, consumed bytes before it)
         if input.len() <= 64 && ii % 2 == 0 { for c in 1..input.len() { schedules.push((format!("cut{c}"), vec![c])); } }
         // capture sets: all, and each single kind (rotating to bound the volume)
-        let flagsets: Vec<u8> = if ii % 3 == 0 { vec![31, 1, 2, 4, 8, 16] } else { vec![31, [1u8, 2, 4, 8, 12, 16, 5][ii % 7]] };
+        let foreign = { let low = input.to_ascii_lowercase(); low.windows(4).any(|w| w == b"<svg") || low.windows(5).any(|w| w == b"<math") };
+        let flagsets: Vec<u8> = if ii % 3 == 0 || foreign { vec![31, 1, 2, 4, 8, 16] } else { vec![31, [1u8, 2, 4, 8, 12, 16, 5][ii % 7]] };
         for &flags in &flagsets {
             for (sname, cuts) in &schedules {
                 if flags != 31 && *sname == "bytewise" && ii % 2 == 0 { continue; }
                 if flags != 31 && sname.starts_with("cut") { continue; }
                 for strict in [true, false] {
-                    let (toks, res) = tokcap::capture(input, cuts, strict, flags);
-                    let key = format!("{flags}|{strict}|{res}|{}", Value::Array(toks.clone()));
+                    let (toks, hints, res) = tokcap::capture_with_hints(input, cuts, strict, flags);
+                    let key = format!("{flags}|{strict}|{res}|{}|{}", Value::Array(toks.clone()), Value::Array(hints.clone()));
                     sh.evaluations += 1;
                     // identical observations are judged once; the strict/non-strict pair is kept for StrictSame
                     if !seen.insert(key) && sname != "single" { continue; }
-                    obs.push(json!({"variant": format!("{sname}/flags={flags}/strict={strict}"), "strict": strict, "flags": flags, "cuts": cuts, "res": res, "toks": toks}));
+                    obs.push(json!({"variant": format!("{sname}/flags={flags}/strict={strict}"), "strict": strict, "flags": flags, "cuts": cuts, "res": res, "toks": toks, "hints": hints}));
                 }
             }
         }
